@@ -474,8 +474,20 @@ def deliveredOk (s : State) : Bool :=
 /-- the per-timer and target clauses -/
 def ok1 (s : State) : Bool := s.timers.all (timerOk s) && targetOk s
 
+/-- DELIVERY after the close: every handled message was SENT no later than the instant the target
+stopped accepting — a timer whose target is no longer running delivers nothing -/
+def sentBeforeCloseOk (s : State) : Bool :=
+  match s.target.closedAt with
+  | none => true
+  | some tc => s.target.handled.all (fun h =>
+      match s.timers[h.1]? with
+      | some τ => (match τ.sentAt[h.2.1 - 1]? with | some t => decide (t ≤ tc) | none => true)
+      | none => true)
+
+def ok2 (s : State) : Bool := ok1 s && deliveredOk s
+
 /-- C12, clauses that hold for every schedule of the small steps. -/
-def ok (s : State) : Bool := ok1 s && deliveredOk s
+def ok (s : State) : Bool := ok2 s && sentBeforeCloseOk s
 
 /-- an interval whose target left the active states is gone within one period (wheel deadline) —
 or, if it was created after that off the millisecond grid, at the next millisecond boundary -/
@@ -501,9 +513,17 @@ def stopsOk (s : State) (τ : Timer) : Bool :=
   (!(τ.kind == .killAfter && !τ.sentAt.isEmpty) || s.target.exit.isSome) &&
   (!(τ.kind == .exitAfter && !τ.sentAt.isEmpty) || s.target.closedAt.isSome)
 
+/-- DELIVERY, the positive half (quiescent points): as long as the target has never stopped
+accepting, every attempt made so far by a (well-typed) sending timer has been handled -/
+def allHandledOk (s : State) : Bool :=
+  s.target.closedAt.isSome ||
+    s.timers.zipIdx.all (fun x => !x.1.kind.sends || !x.1.typed ||
+      (List.range x.1.sentAt.length).all (fun j =>
+        (s.target.handled.map (fun h => (h.1, h.2.1))).contains (x.2, j + 1)))
+
 def okPrompt1 (s : State) : Bool := s.timers.all (timerPromptOk s)
 
 /-- C12, clauses that hold at the quiescent points of a macro run. -/
-def okPrompt (s : State) : Bool := okPrompt1 s && s.timers.all (stopsOk s)
+def okPrompt (s : State) : Bool := okPrompt1 s && s.timers.all (stopsOk s) && allHandledOk s
 
 end Timers
